@@ -134,8 +134,8 @@ type fakePeer struct {
 	// headers of the peer's best chain contained in messages the node has finished handling
 	deliveredTip *verifkit.TBlock
 	corrupt      map[bitcoin.Hash32]func(*verifkit.TBlock) *wire.MsgBlock // hostile bodies (C04/C12)
-	silentBlocks map[bitcoin.Hash32]bool                                 // blocks the peer does not serve (time-out paths)
-	knowsNodeHas *verifkit.TBlock                                        // highest header the peer knows the node has
+	silentBlocks map[bitcoin.Hash32]bool                                  // blocks the peer does not serve (time-out paths)
+	knowsNodeHas *verifkit.TBlock                                         // highest header the peer knows the node has
 }
 
 func newFakePeer(tree *verifkit.Tree, best *verifkit.TBlock) *fakePeer {
@@ -312,23 +312,24 @@ func (f *stubFetcher) GetTx(ctx context.Context, txid bitcoin.Hash32) (*wire.Msg
 // step node
 
 type stepNode struct {
-	ctx     context.Context
-	cfg     config.Config
-	store   *verifkit.MemStore
-	node    *Node
-	h1, h2  *recHandler
-	peer    *fakePeer
-	fetch   *stubFetcher
-	step    int
-	subs    [][]byte
+	ctx       context.Context
+	blockCtx  context.Context // optional role-tagged context for ProcessBlock (harness-owned schedules)
+	cfg       config.Config
+	store     *verifkit.MemStore
+	node      *Node
+	h1, h2    *recHandler
+	peer      *fakePeer
+	fetch     *stubFetcher
+	step      int
+	subs      [][]byte
 	contracts bool
 
 	blockThreadDead string // non-empty: processBlocks would have exited with this error
 	txThreadDead    string // non-empty: processUnconfirmedTxs would have stopped the node
 	restarts        int
 	reconnects      int
-	progress        int // bumps whenever something observable happened (for quiescence)
-	chainFrom       int // lowest height tracked by nodeChain (boundary profiles track only the tail)
+	progress        int           // bumps whenever something observable happened (for quiescence)
+	chainFrom       int           // lowest height tracked by nodeChain (boundary profiles track only the tail)
 	shift           time.Duration // total logical time added through the hook
 }
 
@@ -473,7 +474,11 @@ func (sn *stepNode) blockStep() bool {
 	}
 	sn.progress++
 	bh := block.GetHeader()
-	err0 := sn.node.ProcessBlock(sn.ctx, block)
+	bctx := sn.ctx
+	if sn.blockCtx != nil {
+		bctx = sn.blockCtx
+	}
+	err0 := sn.node.ProcessBlock(bctx, block)
 	sn.trace("blockstep %s -> %v", sn.describe(&wire.MsgBlock{Header: bh}), err0)
 	if err := err0; err != nil {
 		c := errors.Cause(err)
